@@ -37,6 +37,10 @@ extern MPT_STRUCT(buffer) *mpt_array_reserve(MPT_STRUCT(array) *arr, size_t len,
 		}
 		/* total data must align with traits size */
 		if ((align = len % traits->size)) {
+			if (len > (SIZE_MAX - (traits->size - align))) {
+				errno = EINVAL;
+				return 0;
+			}
 			len += traits->size - align;
 		}
 	}
